@@ -181,7 +181,9 @@ impl<'a> Iterator for LinkIter<'a> {
                     Some(IterItem::Last(last))
                 }
                 Some((path, before, advance, quote_type)) => {
-                    self.data = &self.data[advance..];
+                    // a quote without an end reaches to the end of the data;
+                    // there's no closing quote to step over then
+                    self.data = self.data.get(advance..).unwrap_or_default();
                     Some(IterItem::Path {
                         path,
                         before,
